@@ -8,10 +8,9 @@ b=json.load(open('/root/.vp/BASELINE.json'))
 stable=set(b['stable_pass'])
 log=open('/tmp/baseline.log',errors='replace').read()
 passed=set(); failed=set()
-for m in re.finditer(r'^\s*(PASS|FAIL|TIMEOUT|SIGABRT|SIGSEGV|LEAK)\s+\[[^\]]*\]\s+(\S+)\s+(\S+)',log,re.M):
+for m in re.finditer(r'^\s*(PASS|FAIL|TIMEOUT|SIGABRT|SIGSEGV|LEAK)\s+\[[^\]]*\]\s+\(\s*\d+/\d+\)\s+(\S+)\s+(\S+)',log,re.M):
     st,binname,test=m.groups()
-    pkg=binname.split('::')[0]
-    name="%s::%s"%(pkg,test)
+    name="%s::%s"%(binname,test)
     (passed if st=='PASS' else failed).add(name)
 print("passed",len(passed),"failed",len(failed))
 print("stable tests that FAILED:",sorted(stable&failed)[:40])
